@@ -1,6 +1,7 @@
 use super::request_matcher::{DateTimeCondition, HeaderValueCondition};
 use super::route::Route;
 use serde::Serialize;
+use std::collections::HashSet;
 use std::sync::Arc;
 
 #[derive(Serialize, Debug, Clone)]
@@ -77,16 +78,24 @@ impl<T> Trace<T> {
     pub fn get_routes_from_traces(traces: &[Trace<T>]) -> Vec<Arc<Route<T>>> {
         let mut routes = Vec::new();
 
+        Self::collect_routes_from_traces(traces, &mut routes);
+
+        // a route with several ip constraints is traced once per matching constraint: list it once
+        let mut seen = HashSet::new();
+        routes.retain(|route| seen.insert(Arc::as_ptr(route)));
+
+        routes
+    }
+
+    fn collect_routes_from_traces(traces: &[Trace<T>], routes: &mut Vec<Arc<Route<T>>>) {
         for trace in traces {
             if let TraceInfo::Storage { routes: routes_stored } = &trace.info {
                 routes.extend(routes_stored.clone());
             }
 
             if !trace.children.is_empty() {
-                routes.extend(Trace::get_routes_from_traces(&trace.children));
+                Self::collect_routes_from_traces(&trace.children, routes);
             }
         }
-
-        routes
     }
 }
